@@ -11,6 +11,11 @@ CHECKS = {
             "Exhaustive over the listed moduli and over every tie/boundary phase of every M in [2,2^15] and every power of two up to 2^30; random generation only adds cases beyond that. For these pure functions that is a complete decision on the enumerated domain; outside it, sampled.",
             "Trusts the harness's 128-bit reference relation and that numeric-functions.cpp is compiled identically into all five back-end libraries (same object library).",
             "DESIGN.md §3 C13"),
+    "C11": ("exploration", "E1+E2",
+            "rapidcheck over (operation, N, a, p, polynomial contents) with exact uint64 reference; exhaustive a in [0,2N) and bilinear basis table for small N; asan build for the memory side",
+            "Random + boundary-biased generation over 24 operations and laws with an exact integer oracle, exhaustive over the monomial exponent for N<=256 (quick) / 2048 (thorough) and over the basis-pair table for N<=16.",
+            "Trusts the harness reference (schoolbook with 64-bit accumulation). Contents for N>16 are shape descriptors expanded from a generated seed rather than independently generated coefficients.",
+            "DESIGN.md §3 C11"),
 }
 
 ALL = ["C%02d" % k for k in range(1, 21)]
